@@ -46,6 +46,7 @@ func (it *Interp) Reset() {
 	stat.ResetResourceNodeMap()
 	system_metric.SetSystemLoad(4)
 	system_metric.SetSystemCpuUsage(0.75)
+	system_metric.SetSystemMemoryUsage(1 << 40) // above every high water mark: a memory-adaptive threshold is HighMemUsageThreshold
 	it.idle()
 }
 
@@ -352,6 +353,8 @@ func (it *Interp) Step(t []string, op string) string {
 		return vh.List(xs)
 	case "probe":
 		return it.probe(t)
+	case "probeseq":
+		return it.probeSeq(t)
 	}
 	panic("bad op " + op)
 }
@@ -484,4 +487,48 @@ func (it *Interp) probe(t []string) string {
 		return entry("sysprobe", 1, base.Inbound)
 	}
 	panic("bad probe")
+}
+
+// probeSeq sends a short sequence of requests at one instant after the idle gap: one letter per request,
+// p pass, b block, w the request had to sleep (the virtual clock moved: the sequence stops).
+func (it *Interp) probeSeq(t []string) string {
+	if t[1] != "flow" {
+		panic("probeseq: flow only")
+	}
+	it.idle()
+	res := str(t[2])
+	for _, r := range flow.GetRulesOfResource(res) {
+		known := r.RelationStrategy == flow.CurrentResource
+		switch r.TokenCalculateStrategy {
+		case flow.Direct, flow.MemoryAdaptive:
+		case flow.WarmUp:
+			// cold threshold T/coldFactor: modelled when it is not an integer (and T is)
+			t2 := int64(r.Threshold * 2)
+			known = known && r.ControlBehavior == flow.Reject && t2%2 == 0 && r.WarmUpColdFactor != 0 && t2%(2*int64(r.WarmUpColdFactor)) != 0 &&
+				int64(r.WarmUpPeriodSec)*t2 >= 1+int64(r.WarmUpColdFactor) // maxToken > warningToken (else slope is +Inf: C11 warmup-nan)
+		default:
+			known = false
+		}
+		if !known {
+			return "?"
+		}
+	}
+	var sb strings.Builder
+	for _, b := range t[3:] {
+		sleeps := len(it.clk.Sleeps)
+		e, blk := sentinel.Entry(res, sentinel.WithBatchCount(uint32(vh.U(b))), sentinel.WithTrafficType(base.Outbound))
+		if blk == nil {
+			e.Exit()
+		}
+		if len(it.clk.Sleeps) != sleeps {
+			sb.WriteByte('w')
+			break
+		}
+		if blk != nil {
+			sb.WriteByte('b')
+		} else {
+			sb.WriteByte('p')
+		}
+	}
+	return sb.String()
 }
